@@ -115,6 +115,14 @@ class _ProbeCondition:
     def notify(self, n=1):
         self.notified += n
 
+    def wait(self, timeout=None):
+        # a bare wait() may return on ANY notification (also a spurious one) with the state unchanged: the adversarial
+        # scheduler wakes the caller at once - code that does not re-check its predicate afterwards is exposed
+        if self.depth != 1:
+            raise AssertionError("wait outside the condition's lock")
+        self.bare_waits = getattr(self, "bare_waits", 0) + 1
+        return True
+
 
 def part_a(chk):
     E = ed()
@@ -386,8 +394,12 @@ CONFIGS = {
 }
 
 
+WINDOW = 8     # width (in scheduling steps) of one shard of the preemption positions
+
+
 def make_case(tier, key):
-    cfg, preempt, failmode, mask = key
+    cfg, preempt, failmode, mask = key[:4]
+    win = key[4] if len(key) > 4 else None
     mode, n, workers, aliases = CONFIGS[cfg]
     ranges = {f"z{i}": (0, None) for i in range(n)}
     ranges["cap"] = (1, None)
@@ -396,12 +408,14 @@ def make_case(tier, key):
 
     def assume(terms):
         # shard of the size space: which tensor objects are larger than the whole budget
+        if mask == "fit":   # everything fits at once: the budget never blocks (the schedule space is what is explored)
+            return [z3.Sum([terms[f"z{i}"] for i in range(nobj)]) <= terms["cap"]]
         return [(terms[f"z{i}"] > terms["cap"]) if (mask >> i) & 1 else (terms[f"z{i}"] <= terms["cap"]) for i in range(nobj)]
     for t in range(TMAX):
         ranges[f"s{t}"] = (0, 15)
 
     def body(P):
-        return run_config(P, mode, n, workers, aliases, preempt)
+        return run_config(P, mode, n, workers, aliases, preempt, None if win is None else (win * WINDOW, (win + 1) * WINDOW if win < WINDOWS_LAST else 10 ** 6))
 
     def sig(args, obs):
         return "C09:" + cfg + ":" + (obs["problems"][0].split(":")[0][:60] if obs["problems"] else "?")
@@ -411,12 +425,16 @@ def make_case(tier, key):
         sched_ = [args[f"s{t}"] for t in range(obs.get("choices", 0))]
         return f"{cfg} preemptions<={preempt} sizes/capacity/failing task {small} schedule {sched_}: " + "; ".join(obs["problems"][:3])
 
-    over = [i for i in range(nobj) if (mask >> i) & 1]
-    return hist.Case(f"{cfg}[{'no failure' if failmode == 'ok' else f'tensor {failmode} fails'}, tensors larger than the budget: {over}, <= {preempt} preemptions]",
+    over = "none, all tensors fit together" if mask == "fit" else [i for i in range(nobj) if (mask >> i) & 1]
+    wtxt = "" if win is None else f", preemption at scheduling steps {win * WINDOW}..{'end' if win >= WINDOWS_LAST else (win + 1) * WINDOW - 1}"
+    return hist.Case(f"{cfg}[{'no failure' if failmode == 'ok' else f'tensor {failmode} fails'}, tensors larger than the budget: {over}, <= {preempt} preemptions{wtxt}]",
                      ranges, body, group=cfg, meta=dict(sig=sig, describe=describe, assume=assume))
 
 
-def run_config(P, mode, n, workers, aliases, preempt):
+WINDOWS_LAST = 15
+
+
+def run_config(P, mode, n, workers, aliases, preempt, window=None):
     E = ed()
     sizes = [P[f"z{i}"] for i in range(n)]
     cap = P["cap"]
@@ -499,7 +517,7 @@ def run_config(P, mode, n, workers, aliases, preempt):
             check_quiescent(s, "failing tensor")
 
     try:
-        _, sch = vthreads.run(main, w.choose, max_preemptions=preempt, observers=[w.observe])
+        _, sch = vthreads.run(main, w.choose, max_preemptions=preempt, observers=[w.observe], preempt_window=window, delay_bounded=window is not None)
     except vthreads.Deadlock as e:
         w.problem(f"deadlock: {e}")
         return False, dict(problems=w.problems, choices=w.t)
@@ -551,7 +569,7 @@ def run_config(P, mode, n, workers, aliases, preempt):
 
 PLAN = {
     # tier -> [(config, preemptions without failure, preemptions with a failing tensor)]
-    "quick": [("par2w2", 2, 1), ("par3w2", 1, 1), ("par3w2-shared", 1, 1), ("shards2x2w4", 1, 0), ("shards3w3", 1, 0)],
+    "quick": [("par2w2", 2, 1), ("par3w2", 1, 1), ("par3w2-shared", 1, 1), ("shards2x2w4", 1, 0), ("shards3w3", 1, 0), ("shards2x2w6", 2, None, ["fit", 0], True)],
     "thorough": [("par2w2", 3, 2), ("par3w2", 2, 1), ("par3w3", 2, 1), ("par3w2-shared", 2, 1), ("par4w2", 1, 1), ("par4w3-shared", 1, 1),
                  ("shards2x2w4", 1, 1), ("shards2x2w6", 1, 0), ("shards3w3", 2, 1)],
 }
@@ -559,13 +577,20 @@ PLAN = {
 
 def keys_for(tier):
     keys = []
-    for c, p_ok, p_fail in PLAN[tier]:
+    for entry in PLAN[tier]:
+        c, p_ok, p_fail = entry[:3]
         _, n, _, aliases = CONFIGS[c]
         nobj = len(set(aliases)) if aliases else n
-        for mask in range(1 << nobj):
+        masks = entry[3] if len(entry) > 3 else range(1 << nobj)
+        for mask in masks:
+            if len(entry) > 4 and entry[4]:      # shard the preemption positions into windows
+                for win in range(WINDOWS_LAST + 1):
+                    keys.append((c, p_ok, "ok", mask, win))
+                continue
             keys.append((c, p_ok, "ok", mask))
-            for f in range(nobj):
-                keys.append((c, p_fail, f, mask))
+            if p_fail is not None:
+                for f in range(nobj):
+                    keys.append((c, p_fail, f, mask))
     return keys
 
 
@@ -583,8 +608,8 @@ def run(chk, tier):
         "every explored path is re-executed natively with the path's witness (sizes, capacity, failing task, schedule) and must give the same observation",
     )
     chk.bounds = dict(part_A="unbounded: arbitrary state satisfying Inv, arbitrary request, any number of threads",
-                      part_B=dict(configurations={k: dict(mode=v[0], tasks=v[1], max_workers=v[2], aliases=v[3]) for k, v in CONFIGS.items() if k in [c for c, _, _ in PLAN[tier]]},
-                                  preemptions={c: dict(no_failure=a, failing_tensor=b) for c, a, b in PLAN[tier]},
+                      part_B=dict(configurations={k: dict(mode=v[0], tasks=v[1], max_workers=v[2], aliases=v[3]) for k, v in CONFIGS.items() if k in [e[0] for e in PLAN[tier]]},
+                                  preemptions={e[0]: dict(no_failure=e[1], failing_tensor=e[2]) for e in PLAN[tier]},
                                   failing_tasks="at most one, symbolic index", schedule_points=TMAX))
     chk.not_decided += ["preemption inside an atomic section / the GIL (shared state is only touched under the condition's lock)",
                         "schedules with more preemptions, more tasks/workers than the bound", "real file bytes (ranges are disjoint by C07; ExternalTensor bytes by C04)"]
